@@ -311,6 +311,9 @@ pub fn contexts() -> Vec<Ctx> {
         // a look-behind alternative that is itself a group holding an alternation (lengths may differ: must be rejected)
         ("(?<=a|(?:b|X))c?", Box::new(move |x| Concat(vec![Look(b(Alt(vec![la(), NonCap(b(Alt(vec![lb(), x])))])), true, false), Repeat(b(Node::lit("c")), 0, Some(1), Mode::Greedy)]))),
         ("(?<!(?:X|ab)|a)b", Box::new(move |x| Concat(vec![Look(b(Alt(vec![NonCap(b(Alt(vec![x, ab()]))), la()])), true, true), lb()]))),
+        // a second group-carrying delegate whose group sits in a {0} repeat (the automata engine never writes its slots)
+        ("(a)(?=b)b(X){0}c", Box::new(move |x| Concat(vec![Node::group(la()), Look(b(lb()), false, false), lb(), Repeat(b(Node::group(x)), 0, Some(0), Mode::Greedy), Node::lit("c")]))),
+        ("(X)\\bb(a){0}(c)", Box::new(move |x| Concat(vec![Node::group(x), Assert(A::WordB), lb(), Repeat(b(Node::group(la())), 0, Some(0), Mode::Greedy), Node::group(Node::lit("c"))]))),
         // an optional group that ends in a negative look-around (its Split branch and the
         // look-around's own branch sit next to each other on the stack)
         ("a(?:X|(?!b))?b", Box::new(move |x| Concat(vec![la(), Repeat(b(Alt(vec![x, Look(b(lb()), false, true)])), 0, Some(1), Mode::Greedy), lb()]))),
